@@ -125,6 +125,14 @@ class DictInterp:
                 if all(self.ev(c) for c in gen.ifs):
                     out[self.ev(e.key)] = self.ev(e.value)
             return out
+        if isinstance(e, (ast.ListComp, ast.GeneratorExp, ast.SetComp)) and len(e.generators) == 1:
+            gen = e.generators[0]
+            out = []
+            for item in list(self.ev(gen.iter)):
+                self._bind(gen.target, item)
+                if all(self.ev(c) for c in gen.ifs):
+                    out.append(self.ev(e.elt))
+            return set(out) if isinstance(e, ast.SetComp) else out
         if isinstance(e, ast.Attribute) and isinstance(e.value, ast.Call) is False:
             if e.attr == 'items':
                 self.fail(e)
